@@ -2619,3 +2619,536 @@ def _(I, a):
 
 
 import chrono_stub  # noqa: E402  (registers its models)
+
+
+# ---------------- a wider std surface (so that ordinary refactorings of chiritori stay inside the encoder) -----------------
+def _conc(*vs):
+    for v in vs:
+        if is_sym(v):
+            raise Unsupported('symbolic value where the model needs a concrete one')
+
+
+@model('core::slice::<impl [T]>::windows')
+def _(I, a):
+    lst, st, en = as_list(a[0])
+    n = a[1]
+    if n == 0:
+        raise RustPanic('window size must be non-zero')
+    return Iter('into_iter', lst=[SliceRef(lst, i, i + n) for i in range(st, en - n + 1)], pos=0, end=max(0, en - st - n + 1))
+
+
+@model('core::slice::<impl [T]>::chunks')
+def _(I, a):
+    lst, st, en = as_list(a[0])
+    n = a[1]
+    if n == 0:
+        raise RustPanic('chunk size must be non-zero')
+    ch = [SliceRef(lst, i, min(i + n, en)) for i in range(st, en, n)]
+    return Iter('into_iter', lst=ch, pos=0, end=len(ch))
+
+
+@model('std::vec::Vec::retain', 'std::vec::Vec::retain_mut')
+def _(I, a):
+    v = deref(a[0])
+    keep = []
+    for x in v.items:
+        cell = [x]
+        if I.branch(I.call_closure(a[1], [Ref(Slot(cell, 0))])):
+            keep.append(cell[0])
+    v.items[:] = keep
+    return Agg()
+
+
+@model('std::vec::Vec::split_off')
+def _(I, a):
+    v = deref(a[0])
+    if a[1] > len(v.items):
+        raise RustPanic('`at` split index out of bounds')
+    tail = v.items[a[1]:]
+    del v.items[a[1]:]
+    return VecObj(tail)
+
+
+@model('core::slice::<impl [T]>::swap')
+def _(I, a):
+    lst, st, en = as_list(a[0])
+    i, j = a[1], a[2]
+    if i >= en - st or j >= en - st:
+        raise RustPanic('index out of bounds (swap)')
+    lst[st + i], lst[st + j] = lst[st + j], lst[st + i]
+    return Agg()
+
+
+@model('std::vec::Vec::swap_remove')
+def _(I, a):
+    v = deref(a[0])
+    if a[1] >= len(v.items):
+        raise RustPanic('swap_remove index out of bounds')
+    x = v.items[a[1]]
+    v.items[a[1]] = v.items[-1]
+    v.items.pop()
+    return x
+
+
+@model('core::slice::<impl [T]>::partition_point')
+def _(I, a):
+    lst, st, en = as_list(a[0])
+    k = 0
+    # binary search semantics on a partitioned slice = first index where the predicate is false
+    lo, hi = 0, en - st
+    while lo < hi:
+        mid = lo + (hi - lo) // 2
+        if I.branch(I.call_closure(a[1], [Ref(Slot(lst, st + mid))])):
+            lo = mid + 1
+        else:
+            hi = mid
+    return lo
+
+
+@model('core::slice::<impl [T]>::binary_search')
+def _(I, a):
+    lst, st, en = as_list(a[0])
+    x = deref(a[1])
+    _conc(x, *lst[st:en])
+    lo, hi = 0, en - st
+    while lo < hi:
+        mid = lo + (hi - lo) // 2
+        v = deref(lst[st + mid])
+        if v == x:
+            return ok(mid)
+        if v < x:
+            lo = mid + 1
+        else:
+            hi = mid
+    return err(lo)
+
+
+@model('core::slice::<impl [T]>::starts_with')
+def _(I, a):
+    l1, s1, e1 = as_list(a[0])
+    l2, s2, e2 = as_list(a[1])
+    if e2 - s2 > e1 - s1:
+        return False
+    return b_and(val_eq(I, p, q) for p, q in zip(l1[s1:s1 + e2 - s2], l2[s2:e2]))
+
+
+@model('core::str::<impl str>::split_once')
+def _(I, a):
+    s = as_str(a[0])
+    pat = pattern_of(a[1])
+    i = s.start
+    while i <= s.end:
+        n = match_at(I, s, i, pat)
+        if n:
+            return some(Agg([StrRef(s.buf, s.start, i), StrRef(s.buf, i + n, s.end)]))
+        i += 1
+    return NONE()
+
+
+@model('core::str::<impl str>::rsplit_once')
+def _(I, a):
+    s = as_str(a[0])
+    pat = pattern_of(a[1])
+    i = s.end
+    while i >= s.start:
+        n = match_at(I, s, i, pat, backwards=True)
+        if n:
+            return some(Agg([StrRef(s.buf, s.start, i - n), StrRef(s.buf, i, s.end)]))
+        i -= 1
+    return NONE()
+
+
+@model('core::str::<impl str>::split_whitespace', 'core::str::<impl str>::split_ascii_whitespace')
+def _(I, a):
+    s = as_str(a[0])
+    out = []
+    i = s.start
+    cur = None
+    while i < s.end:
+        c, w = decode_at(I, s, i)
+        if is_ws_char(I, c):
+            if cur is not None:
+                out.append(StrRef(s.buf, cur, i))
+                cur = None
+        elif cur is None:
+            cur = i
+        i += w
+    if cur is not None:
+        out.append(StrRef(s.buf, cur, s.end))
+    return Iter('into_iter', lst=out, pos=0, end=len(out))
+
+
+@model('core::str::<impl str>::trim_matches')
+def _(I, a):
+    s = as_str(a[0])
+    pat = pattern_of(a[1])
+    st, en = s.start, s.end
+    while st < en:
+        n = match_at(I, StrRef(s.buf, st, en), st, pat)
+        if not n:
+            break
+        st += n
+    while en > st:
+        n = match_at(I, StrRef(s.buf, st, en), en, pat, backwards=True)
+        if not n:
+            break
+        en -= n
+    return StrRef(s.buf, st, en)
+
+
+@model('core::str::<impl str>::splitn')
+def _(I, a):
+    s = as_str(a[0])
+    n = a[1]
+    pat = pattern_bytes(a[2])
+    out = []
+    pos = s.start
+    while len(out) + 1 < n:
+        r = find_from(I, StrRef(s.buf, pos, s.end), pat, pos)
+        if r is None:
+            break
+        out.append(StrRef(s.buf, pos, r))
+        pos = r + len(pat)
+    if n > 0:
+        out.append(StrRef(s.buf, pos, s.end))
+    return Iter('into_iter', lst=out, pos=0, end=len(out))
+
+
+@model('core::str::<impl str>::rsplit', 'core::str::<impl str>::split_terminator', 'core::str::<impl str>::split_inclusive')
+def _(I, a):
+    s = as_str(a[0])
+    pat = pattern_bytes(a[1])
+    out = []
+    pos = s.start
+    while True:
+        r = find_from(I, StrRef(s.buf, pos, s.end), pat, pos)
+        if r is None:
+            break
+        out.append(StrRef(s.buf, pos, r + (len(pat) if 'inclusive' in I.cur_func else 0)))
+        pos = r + len(pat)
+    if not (('terminator' in I.cur_func or 'inclusive' in I.cur_func) and pos == s.end):
+        out.append(StrRef(s.buf, pos, s.end))
+    if 'rsplit' in I.cur_func:
+        out.reverse()
+    return Iter('into_iter', lst=out, pos=0, end=len(out))
+
+
+@model('core::str::<impl str>::char_indices_rev_helper')
+def _(I, a):
+    raise Unsupported('placeholder')
+
+
+def _char_class(name, conc):
+    def f(I, a):
+        c = deref(a[0])
+        if is_sym(c):
+            if I.branch(z3.ULT(c, 128)):
+                for v in range(128):
+                    pass
+                raise Unsupported('Unicode class of a symbolic char: ' + name)
+            raise Unsupported('Unicode class of a symbolic char: ' + name)
+        return conc(chr(c))
+    EXACT['core::char::methods::<impl char>::' + name] = f
+
+
+_char_class('is_alphanumeric', lambda ch: ch.isalnum())
+_char_class('is_alphabetic', lambda ch: ch.isalpha())
+_char_class('is_numeric', lambda ch: ch.isnumeric())
+_char_class('is_control', lambda ch: ord(ch) < 32 or 127 <= ord(ch) < 160)
+_char_class('is_uppercase', lambda ch: ch.isupper())
+_char_class('is_lowercase', lambda ch: ch.islower())
+
+
+@model('std::iter::once')
+def _(I, a):
+    return Iter('into_iter', lst=[a[0]], pos=0, end=1)
+
+
+@model('std::iter::empty')
+def _(I, a):
+    return Iter('into_iter', lst=[], pos=0, end=0)
+
+
+@model('std::iter::successors')
+def _(I, a):
+    return Iter('successors', cur=[a[0]], f=a[1])
+
+
+_it_next_prev = it_next
+
+
+def it_next(I, it):  # noqa: F811  (extension of the iterator protocol)
+    if it.kind == 'successors':
+        o = it.cur[0]
+        if o.variant == 'None':
+            return None
+        v = o.fields[0]
+        it.cur[0] = I.call_closure(it.f, [Ref(Slot([v], 0))])
+        return v
+    return _it_next_prev(I, it)
+
+
+@model('std::option::Option::xor')
+def _(I, a):
+    x, y = a
+    if (x.variant == 'Some') != (y.variant == 'Some'):
+        return x if x.variant == 'Some' else y
+    return NONE()
+
+
+@model('std::option::Option::flatten')
+def _(I, a):
+    return a[0].fields[0] if a[0].variant == 'Some' else NONE()
+
+
+@model('std::option::Option::insert', 'std::option::Option::get_or_insert', 'std::option::Option::get_or_insert_with')
+def _(I, a):
+    o = deref(a[0])
+    if 'get_or_insert' in I.cur_func and o.variant == 'Some':
+        return Ref(Slot(o.fields, 0))
+    v = I.call_closure(a[1], []) if 'insert_with' in I.cur_func else a[1]
+    o.variant, o.fields = 'Some', [v]
+    return Ref(Slot(o.fields, 0))
+
+
+@model('std::option::Option::replace')
+def _(I, a):
+    o = deref(a[0])
+    old = Enum('Option', o.variant, list(o.fields))
+    o.variant, o.fields = 'Some', [a[1]]
+    return old
+
+
+@model('std::option::Option::is_none_or')
+def _(I, a):
+    o = a[0]
+    return True if o.variant == 'None' else I.call_closure(a[1], [o.fields[0]])
+
+
+@model('std::option::Option::inspect')
+def _(I, a):
+    o = a[0]
+    if o.variant == 'Some':
+        I.call_closure(a[1], [Ref(Slot(o.fields, 0))])
+    return o
+
+
+@model('std::option::Option::ok_or')
+def _(I, a):
+    return ok(a[0].fields[0]) if a[0].variant == 'Some' else err(a[1])
+
+
+@model('std::string::String::pop')
+def _(I, a):
+    so = deref(a[0])
+    if not so.buf:
+        return NONE()
+    s = StrRef(so.buf, 0, len(so.buf))
+    p = char_start_before(I, s, len(so.buf))
+    c, w = decode_at(I, s, p)
+    del so.buf[p:]
+    return some(c)
+
+
+@model('std::string::String::remove')
+def _(I, a):
+    so = deref(a[0])
+    s = StrRef(so.buf, 0, len(so.buf))
+    if a[1] >= len(so.buf) or not is_boundary(I, s, a[1]):
+        raise RustPanic('cannot remove a char from the end of a string / not a char boundary')
+    c, w = decode_at(I, s, a[1])
+    del so.buf[a[1]:a[1] + w]
+    return c
+
+
+@model('std::string::String::insert')
+def _(I, a):
+    so = deref(a[0])
+    if a[1] > len(so.buf) or not is_boundary(I, StrRef(so.buf, 0, len(so.buf)), a[1]):
+        raise RustPanic('String::insert: not a char boundary')
+    so.buf[a[1]:a[1]] = encode_char(a[2])
+    return Agg()
+
+
+@model('std::string::String::clear')
+def _(I, a):
+    del deref(a[0]).buf[:]
+    return Agg()
+
+
+@model('std::string::String::from_utf8', 'core::str::from_utf8')
+def _(I, a):
+    v = deref(a[0])
+    bs = v.items if isinstance(v, VecObj) else as_list_bytes_generic(v)
+    if any(is_sym(b) for b in bs):
+        raise Unsupported('from_utf8 of symbolic bytes')
+    try:
+        bytes(bs).decode()
+    except UnicodeDecodeError:
+        return err(Opaque('utf8_error'))
+    return ok(StringObj(list(bs)) if 'String' in I.cur_func else StrRef(list(bs), 0, len(bs)))
+
+
+def as_list_bytes_generic(v):
+    lst, st, en = as_list(v)
+    return lst[st:en]
+
+
+@model('std::string::String::from_utf8_lossy')
+def _(I, a):
+    bs = as_list_bytes_generic(a[0])
+    if any(is_sym(b) for b in bs):
+        raise Unsupported('from_utf8_lossy of symbolic bytes')
+    out = list(bytes(bs).decode(errors='replace').encode())
+    return Enum('Cow', 'Owned', [StringObj(out)])
+
+
+@model('core::num::<impl usize>::clamp', '<usize as std::cmp::Ord>::clamp')
+def _(I, a):
+    x, lo, hi = a
+    _conc(x, lo, hi)
+    if lo > hi:
+        raise RustPanic('assertion failed: min <= max')
+    return min(max(x, lo), hi)
+
+
+@model('core::num::<impl usize>::min', 'core::num::<impl usize>::max')
+def _(I, a):
+    _conc(a[0], a[1])
+    return min(a[0], a[1]) if I.cur_func.endswith('min') else max(a[0], a[1])
+
+
+def _by_key(I, a, pick_max):
+    it = as_iter(I, a[0])
+    best = None
+    bk = None
+    while True:
+        v = it_next(I, it)
+        if v is None:
+            return opt(best)
+        k = _sort_key_concrete(I.call_closure(a[1], [Ref(Slot([v], 0))]))
+        if best is None or (k >= bk if pick_max else k < bk):
+            best, bk = v, k
+
+
+ITER_METHODS['max_by_key'] = lambda I, a: _by_key(I, a, True)
+ITER_METHODS['min_by_key'] = lambda I, a: _by_key(I, a, False)
+
+
+@itermethod('nth_back')
+def _(I, a):
+    it = as_iter(I, a[0])
+    for _ in range(a[1]):
+        if it_next_back(I, it) is None:
+            return NONE()
+    return opt(it_next_back(I, it))
+
+
+@itermethod('partition')
+def _(I, a):
+    it = as_iter(I, a[0])
+    yes, no = [], []
+    while True:
+        v = it_next(I, it)
+        if v is None:
+            return Agg([VecObj(yes), VecObj(no)])
+        (yes if I.branch(I.call_closure(a[1], [Ref(Slot([v], 0))])) else no).append(v)
+
+
+@itermethod('unzip')
+def _(I, a):
+    it = as_iter(I, a[0])
+    xs, ys = [], []
+    while True:
+        v = it_next(I, it)
+        if v is None:
+            return Agg([VecObj(xs), VecObj(ys)])
+        v = deref(v)
+        xs.append(v[0])
+        ys.append(v[1])
+
+
+@itermethod('eq')
+def _(I, a):
+    x, y = as_iter(I, a[0]), as_iter(I, a[1])
+    cs = []
+    while True:
+        p, q = it_next(I, x), it_next(I, y)
+        if p is None or q is None:
+            return b_and(cs) if (p is None and q is None) else False
+        cs.append(val_eq(I, p, q))
+
+
+@itermethod('product')
+def _(I, a):
+    it = as_iter(I, a[0])
+    s = 1
+    while True:
+        v = it_next(I, it)
+        if v is None:
+            return s
+        s = s * deref(v)
+
+
+@itermethod('is_empty')
+def _(I, a):
+    return it_len(I, as_iter(I, a[0])) == 0
+
+
+@model('std::collections::HashMap::remove')
+def _(I, a):
+    m = deref(a[0])
+    for i, ent in enumerate(m.items):
+        if I.branch(val_eq(I, ent[0], a[1])):
+            del m.items[i]
+            return some(ent[1])
+    return NONE()
+
+
+@model('std::collections::HashMap::len')
+def _(I, a):
+    return len(deref(a[0]).items)
+
+
+@model('std::collections::HashMap::is_empty')
+def _(I, a):
+    return not deref(a[0]).items
+
+
+@model('std::collections::HashMap::iter', 'std::collections::HashMap::into_iter')
+def _(I, a):
+    m = deref(a[0])
+    raise Unsupported('iteration over a HashMap (order is unspecified)')
+
+
+@model('std::collections::HashSet::remove')
+def _(I, a):
+    s = deref(a[0])
+    for i, kk in enumerate(s.items):
+        if I.branch(val_eq(I, kk, a[1])):
+            del s.items[i]
+            return True
+    return False
+
+
+@model('std::collections::HashSet::extend')
+def _(I, a):
+    return vec_extend(I, a)
+
+
+@model('std::cmp::Ordering::is_lt', 'std::cmp::Ordering::is_le', 'std::cmp::Ordering::is_gt', 'std::cmp::Ordering::is_ge', 'std::cmp::Ordering::is_eq',
+       'std::cmp::Ordering::is_ne')
+def _(I, a):
+    v = {'Less': -1, 'Equal': 0, 'Greater': 1}[deref(a[0]).variant]
+    n = I.cur_func.rsplit('::', 1)[-1]
+    return {'is_lt': v < 0, 'is_le': v <= 0, 'is_gt': v > 0, 'is_ge': v >= 0, 'is_eq': v == 0, 'is_ne': v != 0}[n]
+
+
+@model('std::cmp::Ordering::reverse')
+def _(I, a):
+    return Enum('Ordering', {'Less': 'Greater', 'Equal': 'Equal', 'Greater': 'Less'}[a[0].variant], [])
+
+
+@model('std::cmp::Ordering::then')
+def _(I, a):
+    return a[0] if a[0].variant != 'Equal' else a[1]
